@@ -69,6 +69,12 @@ CLAIMED["C11"] = dict(
    technique="Lean 4 inductive invariant over an unbounded-thread LTS + schedule-controlled correspondence with the real crate",
    design="§6 C11")
 
+CLAIMED["C10"] = dict(
+   text="Lean 4 theorems about ExecProto (any number of waker threads, every interleaving of enqueue / notified-flag swap / eventfd write / flag clear / dequeue steps, every batch limit >= 1): no_lost_wake (a queued runnable always has a wake-up pending), flag_sound (why a sender may skip the ping when `notified` is set), scheduled_has_runnable (each scheduled task has exactly one runnable), batch_never_strands, result_once (outputs delivered exactly once, to completed tasks only), completed_is_final, polled_on_loop_only, drop_drops_all — from an arithmetic invariant (omega) and a per-task list invariant. The real Executor/Scheduler runs under controlled thread schedules with yield points at every one of those steps, plus a 1025-runnable batch-limit case, compared step by step with the model (eventfd counter, polls per task, delivered outputs).",
+   note="Trusted: Lean kernel + standard axioms; async_task modelled by its contract; mpsc as FIFO; atomics as single steps; yield-point hooks + scheduler harness; schedules sampled. StreamSource is not modelled separately (its wake path is the ping protocol of C03; its item loop is sequential). '!Send' enforcement is the compiler's; here it is a ghost-ownership theorem plus a thread-id observation in the harness futures.",
+   technique="Lean 4 inductive invariants (arithmetic + list) over an unbounded-thread LTS + schedule-controlled correspondence with the real crate",
+   design="§6 C10")
+
 PENDING_REASON = "not claimed yet in this revision: model and theorems are being built (see DESIGN.md §12 build order); no check is registered rather than registering an unsound one"
 
 def main():
